@@ -189,3 +189,38 @@ func VerifC07_storage_faults() {
 	_ = caching.NewCas
 	_ = backends.NewFileSystemCache
 }
+
+// two targets of one build produce the same bytes; a storage fault hits the first blob write.
+// The second target's result must not become visible while its blob is missing.
+func VerifC07_shared_digest_fault() {
+	w := newWorld()
+	content := sym.StringAlpha("content", 1, "ab")
+	cmdModel["build-1"] = &cmdBehaviour{writes: map[string]string{"p/one.txt": content}}
+	cmdModel["build-2"] = &cmdBehaviour{writes: map[string]string{"p/two.txt": content}}
+	t1 := fileTarget("t1", "build-1", "one.txt")
+	t2 := fileTarget("t2", "build-2", "two.txt")
+	p := w.newProcess(true, config.LoadOutputsAll, t1, t2)
+	sym.Faults(1, filepath.Join(cacheDir(), "cas"), "")
+	_, err1 := p.run(w.ctx, t1)
+	injected := sym.FaultsInjected()
+	sym.Faults(0, "", "")
+	_, err2 := p.run(w.ctx, t2)
+	auditCache("C07.shared")
+	if err1 != nil {
+		sym.Assert(injected > 0, "C07.A3.errors-only-from-faults")
+		sym.Reach("C07.shared.first-failed")
+	}
+	sym.Assert(err2 == nil, "C07.A3.second-target-unaffected-by-earlier-fault")
+	// next build restores both
+	for _, f := range []string{"p/one.txt", "p/two.txt"} {
+		_ = os.Remove(wsPath(f))
+	}
+	n1, n2 := fileTarget("t1", "build-1", "one.txt"), fileTarget("t2", "build-2", "two.txt")
+	p2 := w.newProcess(true, config.LoadOutputsAll, n1, n2)
+	_, e1 := p2.run(w.ctx, n1)
+	_, e2 := p2.run(w.ctx, n2)
+	sym.Assert(e1 == nil && e2 == nil, "C07.A4.build-after-fault-succeeds")
+	got, ok := readWS("p/two.txt")
+	sym.Assert(ok && sym.StrEq(got, content), "C07.A4.outputs-correct-after-fault")
+	sym.Reach("C07.shared")
+}
